@@ -876,6 +876,13 @@ def _b_isinstance(x, t):
     return isinstance(x, real_ts)
 
 
+def _b_enumerate(x, start=0):
+    h = getattr(x, "__generic_enumerate__", None)
+    if h is not None:
+        return h()
+    return enumerate(x, start)
+
+
 def _b_range(*a):
     if any(isinstance(x, SV) for x in a):
         from .models.frames import SymRange
@@ -915,7 +922,7 @@ _TYPE_OF_BUILTIN = {"_b_list": list, "_b_int": int, "_b_float": float, "_b_str":
 BUILTINS = {
     "len": _b_len, "int": _b_int, "float": _b_float, "round": _b_round, "abs": _b_abs, "min": _b_min, "max": _b_max,
     "sum": _b_sum, "all": sym.s_all, "any": sym.s_any, "isinstance": _b_isinstance, "range": _b_range, "str": _b_str,
-    "sorted": _b_sorted, "list": _b_list, "tuple": tuple, "dict": dict, "set": set, "zip": zip, "enumerate": enumerate,
+    "sorted": _b_sorted, "list": _b_list, "tuple": tuple, "dict": dict, "set": set, "zip": zip, "enumerate": _b_enumerate, "prange": _b_range,
     "bool": lambda x=False: (SB(sym.to_bool(x)) if isinstance(x, (SV, SB)) else bool(x)), "reversed": reversed,
     "True": True, "False": False, "None": None, "type": type, "map": map, "filter": filter, "hasattr": hasattr,
     "ValueError": ValueError, "TypeError": TypeError, "KeyError": KeyError, "IndexError": IndexError,
